@@ -4,8 +4,8 @@
     order of their linearization points, each operation obtaining exactly the
     log (hence every result) it obtained concurrently; nothing is lost.
 
-    Linearization point of an operation: its last access to guarded state
-    ([sensitive] event) — the publishing store for a successful change, the load
+    Linearization point of an operation: its publishing store if it has one,
+    otherwise its last access to guarded state ([sensitive] event) — the load
     of the tree pointer for a lookup — or its start if it has none. *)
 From HV Require Import Base.Prelude Base.Locks C07.Model.
 
